@@ -199,7 +199,8 @@ func (rs *RequestServer) Serve() error {
 
 	err := rs.serveLoop(pktChan)
 
-	wg.Wait() // wait for all workers to exit
+	wg.Wait()        // wait for all workers to exit
+	rs.pktMgr.wait() // wait until the responses they produced have been sent
 
 	rs.mu.Lock()
 	defer rs.mu.Unlock()
